@@ -20,7 +20,10 @@ RULE = ('random programs of 1-6 chained public operations (copy, slice, apply,'
         'dimensions, coordinate variables) and IOAPI files (from_arrays, '
         'GRIDDESC with and without CF coordinates); the well-formedness'
         ' oracle runs on the real result of every step and on every '
-        'constructor. evaluations = operation returns/raises monitored; a step '
+        'constructor; one further case runs the repository\'s own test '
+        'suite with the same oracle on every outermost public operation '
+        '(bundled sample files, the maintainers\' call patterns). '
+        'evaluations = operation returns/raises monitored; a step '
         'is non-trivial when the operation returned a file with >= 1 variable;'
         ' distinct = digest of (operation description, input file digest).')
 ASSUMPTIONS = [
@@ -30,7 +33,8 @@ ASSUMPTIONS = [
     'for interpolation',
     'plotting/map/projection helpers (matplotlib/pyproj) are not driven',
 ]
-HOOKS = ['op.return', 'wellformed.eval', 'constructor.eval']
+HOOKS = ['op.return', 'wellformed.eval', 'constructor.eval',
+         'suite.op.return']
 MIN_DISTINCT = {'quick': 800, 'thorough': 10000}
 N = {'quick': 1500, 'thorough': 40000}
 FACETS_REQUIRED = {t: ['op:' + k for k in list(ops.CORE_OPS) +
@@ -39,10 +43,12 @@ FACETS_REQUIRED = {t: ['op:' + k for k in list(ops.CORE_OPS) +
 
 
 def ncases(tier):
-    return N[tier]
+    return N[tier] + 1      # + the repository's own suite under monitors
 
 
 def gen(rng, idx, tier, seed):
+    if idx >= N[tier]:
+        return {'suite': True}
     if idx % 4 == 3:
         fs = {'ioapi': gen_ioapi.gen_spec(rng)}
     else:
@@ -78,7 +84,35 @@ def unlimited_rule(before_dims, out, ioapi):
     return bad
 
 
+def run_suite(spec, res):
+    """the repository's own test suite as workload (bundled sample files,
+    the maintainers' call patterns), with the well-formedness monitor on
+    every outermost public operation that returns a file"""
+    from .. import harness
+    r = harness.run_suite_monitored()
+    if not r or not r.get('counts'):
+        res.note('inconclusive:suite-monitor-observed-nothing')
+        return
+    n = sum(r['counts'].values())
+    res.hook('suite.op.return', n)
+    res.hook('wellformed.eval', n)
+    res.notes['suite_monitored_returns'] = n
+    for op, c in r['counts'].items():
+        res.facet('suite-op:' + op, c)
+    res.ev(digest(['suite', sorted(r['counts'].items())]), True, 'suite')
+    for v in r['violations']:
+        if v['prop'] != 'C01':
+            continue
+        res.viol('suite-malformed-result:' + v['op'],
+                 'in the repository test %s: %s on a %s returned a malformed '
+                 'file: %s' % (v['test'], v['op'], v['receiver'],
+                               '; '.join(v['problems'][:4])),
+                 op=v['op'], test=v['test'])
+
+
 def run(spec, res):
+    if spec.get('suite'):
+        return run_suite(spec, res)
     from .. import harness
     with harness.casedir() as d, harness.handles() as h:
         run_in(spec, res, d, h)
